@@ -13,6 +13,8 @@ extern "C" {
 #include "json_visit.h"
 }
 
+extern "C" size_t jsim_ansi_foreach_del(struct json_object *obj, size_t first, int stride, void (*seen)(void *, const char *, struct json_object *), void *ctx);
+
 namespace
 {
 static const char *const kStaticKeys[6] = {"static-key-0", "static-key-1", "sk2", "", "static key with spaces and \"quotes\"", "k7"};
@@ -54,7 +56,7 @@ struct C06 : Property
 	{
 		return {"O.replace_keeps_position", "O.reinsert_after_delete_goes_last", "O.delete_absent_key", "O.growth_with_tombstones", "O.delete_current_key_in_foreach", "O.add_ex_key_is_new",
 		        "O.add_ex_constant_key", "O.empty_key", "O.long_key", "O.perllike_hash", "O.default_hash", "O.alloc_failure_leaves_map_unchanged", "L.table_size_1", "L.constant_hash_all_collide",
-		        "L.explicit_resize", "L.tombstone_reuse", "L.alloc_failure_leaves_map_unchanged", "seed_source_consulted", "O.delete_current_member_in_visitor", "O.global_hash_switched_while_object_lives", "seed_source_returned_minus_one_first", "L.delete_entry_two_step", "L.delete_current_entry_in_foreach_safe"};
+		        "L.explicit_resize", "L.tombstone_reuse", "L.alloc_failure_leaves_map_unchanged", "seed_source_consulted", "O.delete_current_member_in_visitor", "O.global_hash_switched_while_object_lives", "seed_source_returned_minus_one_first", "L.delete_entry_two_step", "L.delete_current_entry_in_foreach_safe", "O.delete_current_key_in_ansi_foreach"};
 	}
 	std::map<std::string, int64_t> cfg_defaults() const override { return {{"perllike", 0}, {"first_draws_minus_one", 0}, {"first_real_draw_zero", 0}}; }
 
@@ -125,7 +127,7 @@ struct C06 : Property
 			case 6:
 			case 7: op.kind = "del"; op.a = {key}; break;
 			case 8: op.kind = r.chance(1, 2) ? "sethash" : "get"; op.a = {key, (int64_t)r.below(2)}; break;
-			case 9: op.kind = r.chance(1, 3) ? "visitdel" : "iterdel"; op.a = {(int64_t)r.below(8), (int64_t)r.below(3)}; break;
+			case 9: op.kind = r.chance(1, 3) ? "visitdel" : "iterdel"; op.a = {(int64_t)r.below(8), (int64_t)r.below(3), (int64_t)r.below(2)}; break;
 			case 10: op.kind = layer == 1 ? "resize" : "add"; op.a = {layer == 1 ? (int64_t)r.range(1, 40) : key, (int64_t)r.below(6)}; break;
 			default: op.kind = "add"; op.a = {key, (int64_t)r.below(6)}; break;
 			}
@@ -222,6 +224,9 @@ struct C06 : Property
 			if ((found != 0) != (m != nullptr))
 				ctx.fail("C06:lookup-mismatch", "op %zu (%s): key '%s' %s but the model %s it", oi, after, printable(k, 20).c_str(), found ? "is found" : "is not found",
 				         m ? "contains" : "does not contain");
+			// membership test: the value pointer may be NULL (documented)
+			if ((LIB(json_object_object_get_ex(obj, ka.p, nullptr)) != 0) != (m != nullptr))
+				ctx.fail("C06:lookup-mismatch", "op %zu (%s): json_object_object_get_ex('%s', NULL) disagrees with the model (%s)", oi, after, printable(k, 20).c_str(), m ? "present" : "absent");
 			if (m && v != m->val)
 				ctx.fail("C06:lookup-wrong-value", "op %zu (%s): key '%s' maps to %s, model has %s", oi, after, printable(k, 20).c_str(), typed_dump(v).c_str(), typed_dump(m->val).c_str());
 			if (LIB(json_object_object_get(obj, k.c_str())) != (m ? m->val : nullptr))
@@ -473,6 +478,20 @@ struct C06 : Property
 					if (i >= first && (i - first) % (size_t)stride == 0)
 						to_delete.push_back(model[i].key);
 				}
+				if (op.arg(2) & 1)
+				{
+					// the strict-ANSI variant of the macro (props/ansi_foreach.c)
+					LibScope ls;
+					jsim_ansi_foreach_del(
+					    obj, first, stride,
+					    [](void *c, const char *key, struct json_object *val) {
+						    HarnessScope hs;
+						    ((Seq *)c)->push_back({key, val});
+					    },
+					    &visited);
+					ctx.probe("O.delete_current_key_in_ansi_foreach");
+				}
+				else
 				{
 					LibScope ls;
 					size_t i = 0;
@@ -636,6 +655,8 @@ struct C06 : Property
 						have = true;
 						want = m.second;
 					}
+				if ((LIB(lh_table_lookup_ex(t, k.c_str(), nullptr)) != 0) != have)
+					ctx.fail("C06:lookup-mismatch", "L op %zu (%s): lh_table_lookup_ex('%s', NULL) disagrees with the model (%s)", oi, after, printable(k, 20).c_str(), have ? "present" : "absent");
 				struct lh_entry *we = LIB(lh_table_lookup_entry_w_hash(t, k.c_str(), lh_get_hash(t, k.c_str())));
 				if ((we != nullptr) != have || (we && (intptr_t)lh_entry_v(we) != want))
 					ctx.fail("C06:lookup-mismatch", "L op %zu (%s): lookup_entry_w_hash('%s') %s, model %s it", oi, after, printable(k, 20).c_str(), we ? "finds an entry" : "finds nothing",
